@@ -6,6 +6,7 @@ package main
 import (
 	"encoding/json"
 	"fmt"
+	"regexp"
 	"math"
 	"math/big"
 	"os"
@@ -323,11 +324,21 @@ func exactLdexp(x, e float64) float64 {
 
 type law struct {
 	name string
-	// a: program; when b == "" the law holds iff a's only output is `true`;
-	// otherwise a and b must have the same canonical outcome
+	// a: program; when b == "" and want == nil the law holds iff a's only output is `true`;
+	// with b, a and b must have the same canonical outcome; with want, a's only output must be
+	// the value want computes in Go
 	a, b string
 	in   func(any) bool
 	x    func(in, x any) bool // nil: no second value
+	want func(in, x any) any
+	// natives whose calls this law can judge when model and implementation disagree on them:
+	// the law is evaluated on exactly that call's (input, argument)
+	judges []string
+}
+
+type claw struct {
+	law
+	ca, cb *gojq.Code
 }
 
 func isStr(v any) bool { _, ok := v.(string); return ok }
@@ -348,9 +359,32 @@ func isFiniteNum(v any) bool {
 }
 func anyV(any) bool { return true }
 
-// finiteDeep: no NaN inside (NaN != NaN makes `==` laws meaningless)
+// noNaN: no NaN inside (NaN != NaN makes `==` laws meaningless)
 func noNaN(v any) bool {
 	return !anyNumber(v, func(f float64) bool { return math.IsNaN(f) })
+}
+
+// plainJSON: finite numbers and valid UTF-8 only (what JSON text can carry unchanged)
+func plainJSON(v any) bool {
+	switch x := v.(type) {
+	case string:
+		return utf8.ValidString(x)
+	case float64:
+		return !math.IsNaN(x) && !math.IsInf(x, 0)
+	case []any:
+		for _, y := range x {
+			if !plainJSON(y) {
+				return false
+			}
+		}
+	case map[string]any:
+		for k, y := range x {
+			if !utf8.ValidString(k) || !plainJSON(y) {
+				return false
+			}
+		}
+	}
+	return true
 }
 
 func rectangular(v any) bool {
@@ -372,32 +406,112 @@ func rectangular(v any) bool {
 	return true
 }
 
+// sliceObj: {"start": number|null, "end": number|null} without NaN
+func sliceObj(_, x any) bool {
+	m, ok := x.(map[string]any)
+	if !ok || len(m) != 2 {
+		return false
+	}
+	for _, k := range []string{"start", "end"} {
+		v, ok := m[k]
+		if !ok || v != nil && !isNum(v) || !noNaN(v) {
+			return false
+		}
+	}
+	return true
+}
+
+func sliceObjects() []any {
+	bounds := []any{nil, 0, 1, 2, 3, -1, -2, 1.5, 2.5, 0.5, -1.5, -0.5, 10, -10, math.Inf(1), math.Inf(-1), bigOf("18446744073709551616")}
+	var out []any
+	for _, a := range bounds {
+		for _, b := range bounds {
+			out = append(out, map[string]any{"start": a, "end": b})
+		}
+	}
+	return out
+}
+
+var numberLiteral = regexp.MustCompile(`^[+-]?([0-9]+(\.[0-9]*)?|\.[0-9]+)([eE][+-]?[0-9]+)?$`)
+
+func toF(v any) float64 {
+	switch x := v.(type) {
+	case int:
+		return float64(x)
+	case float64:
+		return x
+	case *big.Int:
+		f, _ := new(big.Float).SetInt(x).Float64()
+		return f
+	}
+	return math.NaN()
+}
+
 func laws() []law {
 	strIn := func(v any) bool { return isStr(v) }
 	validStr := func(v any) bool { s, ok := v.(string); return ok && utf8.ValidString(s) }
 	validNeedle := func(_, x any) bool { s, ok := x.(string); return ok && s != "" && utf8.ValidString(s) }
+	validX := func(_, x any) bool { s, ok := x.(string); return ok && utf8.ValidString(s) }
 	arrIn := func(v any) bool { return isArr(v) && noNaN(v) }
 	contIn := func(v any) bool { return (isArr(v) || isObj(v)) && noNaN(v) }
 	strX := func(_, x any) bool { return isStr(x) }
+	numArr := func(v any) bool {
+		xs, ok := v.([]any)
+		if !ok {
+			return false
+		}
+		for _, x := range xs {
+			if !isNum(x) {
+				return false
+			}
+		}
+		return noNaN(v)
+	}
+	scalarArr := func(v any) bool {
+		xs, ok := v.([]any)
+		if !ok {
+			return false
+		}
+		for _, x := range xs {
+			if isArr(x) || isObj(x) {
+				return false
+			}
+			if f, ok := x.(float64); ok && (math.IsNaN(f) || math.IsInf(f, 0)) {
+				return false
+			}
+		}
+		return true
+	}
 	return []law{
-		{name: "length-codepoints", a: `length == (explode | length)`, in: strIn},
-		{name: "utf8bytelength-ge-length", a: `utf8bytelength >= length`, in: strIn},
-		{name: "keys-to_entries", a: `keys == (to_entries | map(.key))`, in: contIn},
-		{name: "keys-sorted-unique", a: `keys == (keys | unique)`, in: contIn},
-		{name: "add-reduce", a: `add`, b: `reduce .[] as $x (null; . + $x)`, in: func(v any) bool { return isArr(v) || isObj(v) }},
-		{name: "flatten-idempotent", a: `(flatten | flatten) == flatten`, in: contIn},
-		{name: "flatten-0", a: `flatten(0) == [.[]]`, in: contIn},
-		{name: "flatten-no-arrays", a: `flatten | all(.[]; type != "array")`, in: contIn},
-		{name: "indices-count-elem", a: `(indices($x) | length) == ([.[] | select(. == $x)] | length)`, in: arrIn, x: func(_, x any) bool { return !isArr(x) && noNaN(x) }},
+		{name: "length-codepoints", a: `length == (explode | length)`, in: strIn, judges: []string{"length", "explode"}},
+		{name: "length-is-rune-count", a: `length`, in: strIn, want: func(in, _ any) any { return utf8.RuneCountInString(in.(string)) }, judges: []string{"length"}},
+		{name: "utf8bytelength-is-len", a: `utf8bytelength`, in: strIn, want: func(in, _ any) any { return len(in.(string)) }, judges: []string{"utf8bytelength"}},
+		{name: "length-containers", a: `length == ([.[]] | length) and length == (keys | length)`, in: contIn, judges: []string{"length", "keys"}},
+		{name: "keys-to_entries", a: `keys == (to_entries | map(.key))`, in: contIn, judges: []string{"keys"}},
+		{name: "keys-sorted-unique", a: `keys == (keys | unique)`, in: contIn, judges: []string{"keys"}},
+		{name: "keys-array", a: `keys == [range(0; length)]`, in: isArr, judges: []string{"keys"}},
+		{name: "add-reduce", a: `add`, b: `reduce .[] as $x (null; . + $x)`, in: func(v any) bool { return isArr(v) || isObj(v) }, judges: []string{"add"}},
+		{name: "flatten-idempotent", a: `(flatten | flatten) == flatten`, in: contIn, judges: []string{"flatten"}},
+		{name: "flatten-0", a: `flatten(0) == [.[]]`, in: contIn, judges: []string{"flatten"}},
+		{name: "flatten-1", a: `flatten(1) == [.[] | if type == "array" then .[] else . end]`, in: contIn, judges: []string{"flatten"}},
+		{name: "flatten-no-arrays", a: `flatten | all(.[]; type != "array")`, in: contIn, judges: []string{"flatten"}},
+		{name: "flatten-depth-step", a: `flatten($x + 1) == (flatten($x) | flatten(1))`, in: contIn, x: func(_, x any) bool { i, ok := x.(int); return ok && i >= 0 && i <= 4 }, judges: []string{"flatten"}},
+		{name: "flatten-negative-is-error", a: `try (flatten($x) | false) catch true`, in: contIn, x: func(_, x any) bool { return isNum(x) && toF(x) < 0 }, judges: []string{"flatten"}},
+		{name: "indices-count-elem", a: `(indices($x) | length) == ([.[] | select(. == $x)] | length)`, in: arrIn, x: func(_, x any) bool { return !isArr(x) && noNaN(x) }, judges: []string{"indices"}},
 		{name: "indices-count-substr", a: `. as $v | (indices($x) | length) == ([range(0; $v | length) as $i | select($v[$i:$i + ($x | length)] == $x)] | length)`, in: validStr,
-			x: validNeedle},
-		{name: "index-first-rindex-last", a: `index($x) == indices($x)[0] and rindex($x) == indices($x)[-1]`, in: func(v any) bool { return isArr(v) && noNaN(v) }, x: func(_, x any) bool { return noNaN(x) }},
-		{name: "index-first-rindex-last-str", a: `index($x) == indices($x)[0] and rindex($x) == indices($x)[-1]`, in: strIn, x: strX},
-		{name: "split-join", a: `(split($x) | join($x)) == .`, in: strIn, x: strX},
-		{name: "divide-join", a: `((. / $x) | join($x)) == .`, in: strIn, x: strX},
-		{name: "min-sort-first", a: `min == (sort | first) and max == (sort | last)`, in: arrIn},
-		{name: "transpose-involution", a: `(transpose | transpose) == .`, in: func(v any) bool { return rectangular(v) && noNaN(v) }},
-		{name: "transpose-cells", a: `. as $v | transpose as $t | all(range(0; $v | length) as $i | range(0; $t | length) as $j | $t[$j][$i] == $v[$i][$j]; .)`,
+			x: validNeedle, judges: []string{"indices"}},
+		{name: "indices-sublist", a: `. as $v | indices($x) == [range(0; ($v | length) - ($x | length) + 1) as $i | select($v[$i:$i + ($x | length)] == $x) | $i]`, in: arrIn,
+			x: func(_, x any) bool { xs, ok := x.([]any); return ok && len(xs) > 0 && noNaN(x) }, judges: []string{"indices", "_index"}},
+		{name: "index-first-rindex-last", a: `index($x) == indices($x)[0] and rindex($x) == indices($x)[-1]`, in: func(v any) bool { return isArr(v) && noNaN(v) }, x: func(_, x any) bool { return noNaN(x) },
+			judges: []string{"index", "rindex", "indices"}},
+		{name: "index-first-rindex-last-str", a: `index($x) == indices($x)[0] and rindex($x) == indices($x)[-1]`, in: strIn, x: strX, judges: []string{"index", "rindex", "indices"}},
+		{name: "split-join", a: `(split($x) | join($x)) == .`, in: strIn, x: strX, judges: []string{"split", "join"}},
+		{name: "divide-join", a: `((. / $x) | join($x)) == .`, in: strIn, x: strX, judges: []string{"_divide"}},
+		{name: "join-scalars", a: `join($x) == (map(if type == "string" then . elif . == null then "" else tojson end) | if length == 0 then "" else reduce .[1:][] as $s (.[0]; . + $x + $s) end)`,
+			in: scalarArr, x: strX, judges: []string{"join"}},
+		{name: "min-sort-first", a: `min == (sort | first) and max == (sort | last)`, in: arrIn, judges: []string{"min", "max", "sort"}},
+		{name: "transpose-involution", a: `(transpose | transpose) == .`, in: func(v any) bool { return rectangular(v) && noNaN(v) }, judges: []string{"transpose"}},
+		{name: "transpose-cells", a: `. as $v | transpose as $t | ($t | length) == ([$v[] | length] | max // 0) and all(range(0; $v | length) as $i | range(0; $t | length) as $j | $t[$j][$i] == $v[$i][$j]; .)`,
 			in: func(v any) bool {
 				xs, ok := v.([]any)
 				if !ok {
@@ -409,37 +523,210 @@ func laws() []law {
 					}
 				}
 				return noNaN(v)
-			}},
-		{name: "tostring-tonumber", a: `(tostring | tonumber) == .`, in: isFiniteNum},
-		{name: "tostring-string-identity", a: `tostring == .`, in: strIn},
-		{name: "json-is-tojson", a: `@json == tojson and @text == tostring`, in: anyV},
-		{name: "has-keys-object", a: `has($x) == (keys | index($x) != null)`, in: isObj, x: strX},
-		{name: "has-array", a: `has($x) == ($x >= 0 and $x < length)`, in: isArr, x: func(_, x any) bool { _, ok := x.(int); return ok }},
-		{name: "ltrimstr", a: `if startswith($x) then ($x + ltrimstr($x)) == . else ltrimstr($x) == . end`, in: strIn, x: strX},
-		{name: "rtrimstr", a: `if endswith($x) then (rtrimstr($x) + $x) == . else rtrimstr($x) == . end`, in: strIn, x: strX},
-		{name: "trimstr-nonstring-is-error", a: `[try (ltrimstr($x) | "value") catch "error", try (rtrimstr($x) | "value") catch "error", try (startswith($x) | "value") catch "error"] == ["error", "error", "error"]`,
-			in: anyV, x: func(in, x any) bool { return !isStr(in) || !isStr(x) }},
-		{name: "contains-substring", a: `contains($x) == (index($x) != null)`, in: validStr, x: validNeedle},
-		{name: "contains-reflexive", a: `contains(.)`, in: func(v any) bool { return noNaN(v) }},
-		{name: "inside-converse", a: `. as $v | (try inside($x) catch "e") == (try ($x | contains($v)) catch "e")`, in: anyV, x: func(in, x any) bool { return true }},
-		{name: "add-null-identity", a: `(. + null) == . and (null + .) == .`, in: noNaN},
-		{name: "array-minus-self", a: `(. - .) == []`, in: arrIn},
-		{name: "object-merge-empty", a: `(. * {}) == . and ({} * .) == . and (. + {}) == . and ({} + .) == .`, in: func(v any) bool { return isObj(v) && noNaN(v) }},
-		{name: "string-repeat", a: `(. * 1) == . and (. * -1) == null and (. * 2) == (. + .) and (2 * .) == (. + .)`, in: strIn},
-		{name: "setpath-getpath", a: `all(paths as $p | setpath($p; getpath($p)) == .; .)`, in: func(v any) bool { return noNaN(v) }},
+			}, judges: []string{"transpose"}},
+		{name: "tostring-tonumber", a: `(tostring | tonumber) == .`, in: isFiniteNum, judges: []string{"tostring", "tonumber", "tojson"}},
+		{name: "tostring-string-identity", a: `tostring == .`, in: strIn, judges: []string{"tostring"}},
+		{name: "tonumber-accepts-number-literals-only", a: `try (tonumber | true) catch false`, in: strIn, want: func(in, _ any) any { return numberLiteral.MatchString(in.(string)) }, judges: []string{"tonumber"}},
+		{name: "json-is-tojson", a: `@json == tojson and @text == tostring`, in: anyV, judges: []string{"tojson", "tostring"}},
+		{name: "tojson-fromjson", a: `(tojson | fromjson) == .`, in: plainJSON, judges: []string{"tojson"}},
+		{name: "fromjson-tojson-fromjson", a: `try (fromjson | tojson | fromjson) catch "e"`, b: `try fromjson catch "e"`, in: func(v any) bool { s, ok := v.(string); return ok && !strings.Contains(s, "e4") && !strings.Contains(s, "e-4") },
+			judges: []string{"fromjson"}},
+		{name: "base64-uri-roundtrip", a: `(@base64 | @base64d) == . and (@uri | @urid) == .`, in: strIn, judges: []string{"_tobase64", "_tobase64d", "_touri", "_tourid"}},
+		{name: "has-keys-object", a: `has($x) == (keys | index($x) != null)`, in: isObj, x: strX, judges: []string{"has"}},
+		{name: "has-array", a: `has($x) == ($x >= 0 and $x < length)`, in: isArr, x: func(_, x any) bool { _, ok := x.(int); return ok }, judges: []string{"has"}},
+		{name: "ltrimstr", a: `if startswith($x) then ($x + ltrimstr($x)) == . else ltrimstr($x) == . end`, in: strIn, x: strX, judges: []string{"ltrimstr", "startswith"}},
+		{name: "rtrimstr", a: `if endswith($x) then (rtrimstr($x) + $x) == . else rtrimstr($x) == . end`, in: strIn, x: strX, judges: []string{"rtrimstr", "endswith"}},
+		{name: "trimstr", a: `trimstr($x) == (ltrimstr($x) | rtrimstr($x))`, in: strIn, x: strX, judges: []string{"trimstr"}},
+		{name: "startswith-endswith-slices", a: `startswith($x) == (.[:($x | length)] == $x) and endswith($x) == ($x == "" or .[-($x | length):] == $x)`, in: validStr, x: validX, judges: []string{"startswith", "endswith"}},
+		{name: "trimstr-nonstring-is-error", a: `[try (ltrimstr($x) | "value") catch "error", try (rtrimstr($x) | "value") catch "error", try (startswith($x) | "value") catch "error", try (endswith($x) | "value") catch "error", try (trimstr($x) | "value") catch "error"] == ["error", "error", "error", "error", "error"]`,
+			in: anyV, x: func(in, x any) bool { return !isStr(in) || !isStr(x) }, judges: []string{"ltrimstr", "rtrimstr", "startswith", "endswith", "trimstr"}},
+		{name: "trim", a: `trim == (ltrim | rtrim) and (trim | trim) == trim and ((" \t\n" + . + " \r\n") | trim) == trim and (trim | (startswith(" ") or endswith(" ") or startswith("\n") or endswith("\t")) | not)`, in: strIn,
+			judges: []string{"trim", "ltrim", "rtrim"}},
+		{name: "ascii-case", a: `(ascii_downcase | explode) == [explode[] | if 65 <= . and . <= 90 then . + 32 else . end] and (ascii_upcase | explode) == [explode[] | if 97 <= . and . <= 122 then . - 32 else . end]`, in: strIn,
+			judges: []string{"ascii_downcase", "ascii_upcase"}},
+		{name: "explode-implode", a: `(explode | implode) == .`, in: validStr, judges: []string{"explode", "implode"}},
+		{name: "implode-explode-clamped", a: `(implode | explode) == [.[] | trunc | if . >= 0 and . <= 1114111 and (. < 55296 or . > 57343) then . else 65533 end]`, in: numArr, judges: []string{"implode"}},
+		{name: "contains-substring", a: `contains($x) == (index($x) != null)`, in: validStr, x: validNeedle, judges: []string{"contains"}},
+		{name: "contains-reflexive", a: `contains(.)`, in: func(v any) bool { return noNaN(v) }, judges: []string{"contains"}},
+		{name: "contains-array", a: `. as $v | contains($x) == ($x | all(.[]; . as $e | $v | any(.[]; try contains($e) catch false)))`, in: arrIn, x: func(_, x any) bool { return isArr(x) && noNaN(x) }, judges: []string{"contains"}},
+		{name: "contains-object", a: `. as $v | contains($x) == ($x | to_entries | all(.[]; . as $e | ($v | has($e.key)) and ($v[$e.key] | try contains($e.value) catch false)))`, in: func(v any) bool { return isObj(v) && noNaN(v) },
+			x: func(_, x any) bool { return isObj(x) && noNaN(x) }, judges: []string{"contains"}},
+		{name: "inside-converse", a: `. as $v | (try inside($x) catch "e") == (try ($x | contains($v)) catch "e")`, in: anyV, x: func(in, x any) bool { return true }, judges: []string{"inside"}},
+		{name: "add-null-identity", a: `(. + null) == . and (null + .) == .`, in: noNaN, judges: []string{"_add"}},
+		{name: "array-minus", a: `. as $v | ($v - $x) == [$v[] | select(. as $e | $x | all(.[]; . != $e))]`, in: arrIn, x: func(_, x any) bool { return isArr(x) && noNaN(x) }, judges: []string{"_subtract"}},
+		{name: "object-merge-empty", a: `(. * {}) == . and ({} * .) == . and (. + {}) == . and ({} + .) == .`, in: func(v any) bool { return isObj(v) && noNaN(v) }, judges: []string{"_multiply", "_add"}},
+		{name: "object-add-right-wins", a: `. as $v | ($v + $x) as $m | all(($v + $x | keys)[]; . as $k | $m[$k] == (if ($x | has($k)) then $x[$k] else $v[$k] end)) and ($m | keys) == (($v | keys) + ($x | keys) | unique)`,
+			in: func(v any) bool { return isObj(v) && noNaN(v) }, x: func(_, x any) bool { return isObj(x) && noNaN(x) }, judges: []string{"_add"}},
+		{name: "object-deep-merge", a: `. as $v | ($v * $x) as $m | ($m | keys) == (($v | keys) + ($x | keys) | unique) and all(($m | keys)[]; . as $k | $m[$k] == (if ($x | has($k)) | not then $v[$k] elif ($v[$k] | type) == "object" and ($x[$k] | type) == "object" then $v[$k] * $x[$k] else $x[$k] end))`,
+			in: func(v any) bool { return isObj(v) && noNaN(v) }, x: func(_, x any) bool { return isObj(x) && noNaN(x) }, judges: []string{"_multiply"}},
+		{name: "string-repeat", a: `(. * 1) == . and (. * -1) == null and (. * 2) == (. + .) and (2 * .) == (. + .) and (. * 3 | length) == 3 * length`, in: strIn, judges: []string{"_multiply"}},
+		{name: "setpath-getpath", a: `all(paths as $p | setpath($p; getpath($p)) == .; .)`, in: func(v any) bool { return noNaN(v) }, judges: []string{}},
 		{name: "delpaths-getpath-null", a: `all(paths as $p | delpaths([$p]) | getpath($p) == null or ($p[-1] | type) == "number"; .)`, in: func(v any) bool { return noNaN(v) }},
 		{name: "delpaths-all", a: `delpaths([paths]) == (if type == "array" then [] elif type == "object" then {} else . end)`, in: func(v any) bool { return noNaN(v) }},
 		{name: "getpath-is-path-expression", a: `all(paths as $p | getpath($p) == (reduce $p[] as $k (.; .[$k])); .)`, in: func(v any) bool { return noNaN(v) }},
-		{name: "reverse-reverse", a: `(reverse | reverse) == .`, in: arrIn},
-		{name: "sort-is-sorted-permutation", a: `sort as $s | ($s | length) == length and all(range(1; $s | length) as $i | $s[$i - 1] <= $s[$i]; .) and ($s | unique) == unique`, in: arrIn},
+		{name: "slice-get-is-slice-syntax", a: `getpath([$x]) == .[$x.start:$x.end]`, in: func(v any) bool { return (isArr(v) || v == nil) && noNaN(v) }, x: sliceObj, judges: []string{"getpath", "_index", "_slice"}},
+		{name: "slice-set-get-identity", a: `setpath([$x]; getpath([$x])) == .`, in: arrIn, x: sliceObj, judges: []string{"setpath", "getpath"}},
+		{name: "slice-del-length", a: `(delpaths([[$x]]) | length) == length - (getpath([$x]) | length)`, in: arrIn, x: sliceObj, judges: []string{"delpaths", "getpath"}},
+		{name: "slice-set-empty-is-del", a: `setpath([$x]; []) == delpaths([[$x]])`, in: arrIn, x: sliceObj, judges: []string{"setpath", "delpaths"}},
+		{name: "slice-set-replaces", a: `. as $v | (($v | length) - ($v | .[$x.start:] | length)) as $s | setpath([$x]; ["N", "M", "K"]) == ((delpaths([[$x]]) | .[:$s]) + ["N", "M", "K"] + (delpaths([[$x]]) | .[$s:]))`,
+			in: arrIn, x: sliceObj, judges: []string{"setpath"}},
+		{name: "string-slice-codepoints", a: `.[$x.start:$x.end] == (explode | .[$x.start:$x.end] | implode)`, in: validStr, x: sliceObj, judges: []string{"_index", "_slice"}},
+		{name: "slice-concat", a: `(.[:$x] + .[$x:]) == .`, in: func(v any) bool { return (isArr(v) && noNaN(v)) || isStr(v) }, x: func(_, x any) bool { _, ok := x.(int); return ok }, judges: []string{}},
+		{name: "index-is-slice-of-one", a: `. as $v | if $x >= 0 and $x < length or $x < 0 and -$x <= length then [.[$x]] == .[$x:($x + 1 | if . == 0 then null else . end)] else .[$x] == null end`,
+			in: arrIn, x: func(_, x any) bool { i, ok := x.(int); return ok && i > -1000 && i < 1000 }, judges: []string{"_index"}},
+		{name: "reverse-reverse", a: `(reverse | reverse) == . and (reverse | length) == length and all(range(0; length) as $i | reverse[$i] == .[length - 1 - $i]; .)`, in: arrIn, judges: []string{"reverse"}},
+		{name: "sort-is-sorted-permutation", a: `sort as $s | ($s | length) == length and all(range(1; $s | length) as $i | $s[$i - 1] <= $s[$i]; .) and ($s | unique) == unique`, in: arrIn, judges: []string{"sort", "unique"}},
 		{name: "floor-ceil-bracket", a: `floor <= . and . <= ceil and (ceil - floor) <= 1 and (trunc == floor or trunc == ceil)`, in: func(v any) bool { f, ok := v.(float64); return ok && !math.IsNaN(f) && !math.IsInf(f, 0) && math.Abs(f) < 1e15 }},
-		{name: "abs", a: `abs == (if . < 0 then -. else . end) and abs >= 0`, in: isFiniteNum},
+		{name: "math-rounding-is-go-math", a: `[floor, ceil, round, trunc, fabs, nearbyint, rint, significand, logb]`, in: isNum, want: func(in, _ any) any {
+			f := toF(in)
+			fr, _ := math.Frexp(f)
+			return []any{math.Floor(f), math.Ceil(f), math.Round(f), math.Trunc(f), math.Abs(f), math.RoundToEven(f), math.RoundToEven(f), fr * 2, math.Logb(f)}
+		}, judges: []string{"floor", "ceil", "round", "trunc", "fabs", "nearbyint", "rint", "significand", "logb"}},
+		{name: "classifiers", a: `(isnan == (. != .)) and (isinfinite == (. == infinite or . == -infinite)) and (isfinite == (isinfinite | not)) and (isnormal == (isnan or isinfinite or . == 0 or (fabs < 2.2250738585072014e-308) | not))`,
+			in: isNum, judges: []string{"isnan", "isinfinite", "isfinite", "isnormal"}},
+		{name: "abs", a: `abs == (if . < 0 then -. else . end) and abs >= 0`, in: isFiniteNum, judges: []string{"abs"}},
+		{name: "gmtime-mktime-roundtrip", a: `((gmtime | mktime) - .) | fabs < 0.000001`, in: func(v any) bool { return isFiniteNum(v) && math.Abs(toF(v)) < 1e11 }, judges: []string{"gmtime", "mktime"}},
+		{name: "gmtime-fields", a: `gmtime as $t | (floor | gmtime) as $w | $t[0:5] == $w[0:5] and $t[6:8] == $w[6:8] and (($t[5] - $w[5] - (. - floor)) | fabs < 0.000001)`,
+			in: func(v any) bool { return isFiniteNum(v) && math.Abs(toF(v)) < 1e11 && (toF(v) >= 0 || toF(v) == math.Floor(toF(v))) }, judges: []string{"gmtime"}},
 		{name: "type-errors-are-catchable", a: `[try (keys | "v") catch "e", try (explode | "v") catch "e", try (sin | "v") catch "e", try (implode | "v") catch "e"] | all(.[]; . == "v" or . == "e")`, in: anyV},
 	}
 }
 
-func lawsOracle(ctx *common.Ctx) {
-	o := ctx.NewOracle("laws", "documented-function laws evaluated by the real code through the public API (length/explode, keys/to_entries, add/reduce, flatten, indices counts, split/join, min/sort, transpose, range vs arithmetic, tostring/tonumber, @json/tojson, has, ltrimstr …, contains, setpath/getpath/delpaths, operator identities) on the value universe, pairs for the two-value laws and random values; distinct = distinct (law, input[, argument])")
+func compileLaws() []*claw {
+	var out []*claw
+	for _, l := range laws() {
+		vars := []string{}
+		if l.x != nil {
+			vars = []string{"$x"}
+		}
+		compile := func(src string) *gojq.Code {
+			c, err := gojq.Compile(parseQ(src), gojq.WithVariables(vars))
+			if err != nil {
+				panic(fmt.Sprintf("law %s: %v", l.name, err))
+			}
+			return c
+		}
+		cl := &claw{law: l, ca: compile(l.a)}
+		if l.b != "" {
+			cl.cb = compile(l.b)
+		}
+		out = append(out, cl)
+	}
+	return out
+}
+
+// check evaluates the law on (in, x) and reports a violation of the real code.
+func (l *claw) check(ctx *common.Ctx, o *common.Oracle, in, x any, origin string) bool {
+	var vs []any
+	if l.x != nil {
+		vs = []any{x}
+	}
+	oa := common.RunCode(l.ca, common.DeepCopy(in), 2000000, 1000, vs...)
+	o.Cases++
+	o.Distribution[l.name]++
+	ok, observed := false, common.CanonOutcome(oa)
+	switch {
+	case l.cb != nil:
+		ob := common.CanonOutcome(common.RunCode(l.cb, common.DeepCopy(in), 2000000, 1000, vs...))
+		ok = observed == ob
+		observed += "   versus   " + ob
+	case l.want != nil:
+		w := "" + common.Canon(l.want(in, x)) + " ; END"
+		ok = observed == w
+		observed += "   expected   " + w
+	default:
+		ok = oa.Panic == "" && oa.Err == nil && !oa.Budget && len(oa.Outs) == 1 && oa.Outs[0] == true
+	}
+	if oa.Budget || ok {
+		return false
+	}
+	rep := map[string]any{"law": l.a, "input": marshalS(in), "observed": observed}
+	what := fmt.Sprintf("law %s fails on %s", l.name, clipS(marshalS(in), 200))
+	cmd := fmt.Sprintf("gojq -c '%s' <<< '%s'", l.a, marshalS(in))
+	if l.x != nil {
+		rep["x"] = marshalS(x)
+		what += " with $x = " + clipS(marshalS(x), 100)
+		cmd = fmt.Sprintf("gojq -c --argjson x '%s' '%s' <<< '%s'", marshalS(x), l.a, marshalS(in))
+	}
+	if l.b != "" {
+		rep["other"] = l.b
+	}
+	if origin != "" {
+		rep["found_by"] = origin
+	}
+	rep["cmd"] = cmd
+	ctx.Violate("law:"+l.name, what+": "+clipS(observed, 200), rep)
+	return true
+}
+
+// judgeCalls: candidate (input, $x) pairs a native call stands for in the laws.
+func judgeCalls(name string, t tuple) [][2]any {
+	var out [][2]any
+	arg := func(i int) any {
+		if i < len(t.args) {
+			return t.args[i]
+		}
+		return nil
+	}
+	single := func(v any) (any, bool) {
+		xs, ok := v.([]any)
+		if ok && len(xs) == 1 {
+			return xs[0], true
+		}
+		return nil, false
+	}
+	switch {
+	case name == "_slice":
+		out = append(out, [2]any{arg(0), map[string]any{"start": arg(2), "end": arg(1)}})
+	case ignoresInput[name]:
+		out = append(out, [2]any{arg(0), arg(1)})
+	case name == "setpath" || name == "getpath":
+		out = append(out, [2]any{t.in, arg(0)})
+		if p, ok := single(arg(0)); ok {
+			out = append(out, [2]any{t.in, p})
+		}
+	case name == "delpaths":
+		out = append(out, [2]any{t.in, arg(0)})
+		if ps, ok := single(arg(0)); ok {
+			if p, ok := single(ps); ok {
+				out = append(out, [2]any{t.in, p})
+			}
+		}
+	default:
+		out = append(out, [2]any{t.in, arg(0)})
+	}
+	return out
+}
+
+// judgeDisagreements hands every call on which model and implementation disagree to the laws
+// that speak about that native: if a law fails on exactly this call, the REAL code violates the
+// documented function (a failing input, not just a broken correspondence).
+func judgeDisagreements(ctx *common.Ctx, o *common.Oracle, cl []*claw, name string, t tuple) {
+	for _, l := range cl {
+		hit := false
+		for _, j := range l.judges {
+			if j == name {
+				hit = true
+			}
+		}
+		if !hit {
+			continue
+		}
+		for _, c := range judgeCalls(name, t) {
+			in, x := c[0], c[1]
+			if !l.in(in) || l.x != nil && !l.x(in, x) {
+				continue
+			}
+			l.check(ctx, o, in, x, "correspondence disagreement on "+label(name, t))
+		}
+	}
+}
+
+func newLawsOracle(ctx *common.Ctx) *common.Oracle {
+	return ctx.NewOracle("laws", "documented-function laws evaluated by the real code through the public API (length/explode, keys/to_entries, add/reduce, flatten with depth, indices counts and sub-lists, split/join, min/sort, transpose, range vs arithmetic, tostring/tonumber and the number-literal grammar, tojson/fromjson, @base64/@uri round trips, has, ltrimstr …, trim, case mapping, implode clamping, contains, object merge and deep merge, array difference, slices as paths (get/set/del), setpath/getpath/delpaths, rounding functions vs Go's math, classifiers, gmtime/mktime) on the value universe, pairs for the two-value laws, random values, and on every call on which model and implementation disagree; distinct = distinct (law, input[, argument])")
+}
+
+func lawsOracle(ctx *common.Ctx, o *common.Oracle, cl []*claw) {
 	r := ctx.R
 	u := common.Universe(true)
 	u = append(u, extUniverse()...)
@@ -460,63 +747,21 @@ func lawsOracle(ctx *common.Ctx) {
 		}
 		u = append(u, m)
 	}
+	for _, f := range common.InterestingFloats() {
+		u = append(u, f, -f)
+	}
+	u = append(u, -1.5, -0.5, -86400.25, 86399.75, 1e10+0.5)
 	xs := append([]any{}, coreUniverse()...)
 	for _, s := range common.UniverseStrings() {
 		xs = append(xs, s)
 	}
+	xs = append(xs, sliceObjects()...)
+	xs = append(xs, 4, -3, -0.5, map[string]any{"a": map[string]any{"b": 2, "c": 3}}, map[string]any{"a": map[string]any{"b": 9}, "d": 1}, map[string]any{"b": 1, "a": "x"}, []any{1, 2}, []any{2, 1}, []any{"a"}, []any{nil})
 	distinct := 0
-	for _, l := range laws() {
-		vars := []string{}
-		if l.x != nil {
-			vars = []string{"$x"}
-		}
-		compile := func(src string) *gojq.Code {
-			c, err := gojq.Compile(parseQ(src), gojq.WithVariables(vars))
-			if err != nil {
-				panic(fmt.Sprintf("law %s: %v", l.name, err))
-			}
-			return c
-		}
-		ca := compile(l.a)
-		var cb *gojq.Code
-		if l.b != "" {
-			cb = compile(l.b)
-		}
+	for _, l := range cl {
 		check := func(in, x any) {
-			var vs []any
-			if l.x != nil {
-				vs = []any{x}
-			}
-			oa := common.RunCode(ca, common.DeepCopy(in), 2000000, 1000, vs...)
-			o.Cases++
-			o.Distribution[l.name]++
 			distinct++
-			ok, observed := false, common.CanonOutcome(oa)
-			if cb != nil {
-				ob := common.CanonOutcome(common.RunCode(cb, common.DeepCopy(in), 2000000, 1000, vs...))
-				ok = observed == ob
-				observed += "   versus   " + ob
-			} else {
-				ok = oa.Panic == "" && oa.Err == nil && !oa.Budget && len(oa.Outs) == 1 && oa.Outs[0] == true
-			}
-			if oa.Budget {
-				return
-			}
-			if !ok {
-				rep := map[string]any{"law": l.a, "input": marshalS(in), "observed": observed}
-				what := fmt.Sprintf("law %s fails on %s", l.name, clipS(marshalS(in), 200))
-				cmd := fmt.Sprintf("gojq -c '%s' <<< '%s'", l.a, marshalS(in))
-				if l.x != nil {
-					rep["x"] = marshalS(x)
-					what += " with $x = " + clipS(marshalS(x), 100)
-					cmd = fmt.Sprintf("gojq -c --argjson x '%s' '%s' <<< '%s'", marshalS(x), l.a, marshalS(in))
-				}
-				if l.b != "" {
-					rep["other"] = l.b
-				}
-				rep["cmd"] = cmd
-				ctx.Violate("law:"+l.name, what+": "+clipS(observed, 200), rep)
-			}
+			l.check(ctx, o, in, x, "")
 		}
 		for _, in := range u {
 			if !l.in(in) {
@@ -537,6 +782,10 @@ func lawsOracle(ctx *common.Ctx) {
 					if l.x(in, x) {
 						check(in, x)
 					}
+				}
+				if len(arr) >= 2 && l.x(in, arr[:2]) {
+					check(in, arr[:2])
+					check(in, arr[len(arr)-2:])
 				}
 			}
 			if s, ok := in.(string); ok && utf8.ValidString(s) {
